@@ -271,6 +271,22 @@ def judge(prep, inputs_json: dict, timeout: float, excl=()) -> dict:
         inputs_json = {k: v for k, v in inputs_json.items() if k != "self"}
         inputs = {k: v for k, v in inputs.items() if k != "self"}
         inputs["self"] = owner.__new__(owner)
+    # ghost event log: classes whose sidecar declares the ghost field `emitted` record the names passed to emit()
+    for obj in inputs.values():
+        cs = next((c_ for q, c_ in reg.classes.items() if q.split(":")[-1] == type(obj).__name__), None)
+        if cs is not None and "emitted" in cs.ghost_fields:
+            if not isinstance(getattr(obj, "emitted", None), list):
+                obj.emitted = []
+
+            def _emit(name, *a, _o=obj, _real=getattr(type(obj), "emit", None), **kw):
+                _o.emitted.append(name)
+                try:
+                    return _real(_o, name, *a, **kw) if _real is not None else False
+                except Exception:
+                    return False     # a partially rebuilt object has no listener table
+            obj.emit = _emit
+            if not hasattr(obj, "_events"):
+                obj.remove_all_listeners = lambda *a, **kw: None
     local = dict(inputs)
     # a unit verified per type parameter (params declared '$NAME') only speaks about arguments of that class
     for pname, ptxt in c.params.items():
@@ -341,7 +357,7 @@ def judge(prep, inputs_json: dict, timeout: float, excl=()) -> dict:
             if cls is not None and isinstance(raised, cls):
                 if cond is not None:
                     try:
-                        ok = ctx.evaluate(cond, old_local)
+                        ok = ctx.evaluate(cond.lstrip("?"), old_local)
                     except Exception as ex:
                         return {"status": "error", "detail": f"raise condition: {type(ex).__name__}: {ex}"}
                     if not ok:
@@ -353,7 +369,7 @@ def judge(prep, inputs_json: dict, timeout: float, excl=()) -> dict:
                 "detail": f"{name}: {raised}", "traceback": tb[-3:]}
     local["result"] = result
     for exc, cond in c.raises.items():
-        if cond is not None:
+        if cond is not None and not cond.startswith("?"):
             try:
                 if ctx.evaluate(cond, old_local):
                     return {"status": "violation", "kind": f"raises[{exc}].iff",
